@@ -16,6 +16,8 @@ Adv == l' = l + 1 /\ UNCHANGED log
 
 TBegin == /\ Ev.e = "h_begin" /\ S' = TLCEval(SeedOf(Ev.input)) /\ v2' = Ev.v2
           /\ gseed' = <<>> /\ prog' = <<>> /\ lastReg' = <<>> /\ fpr' = <<>> /\ Adv
+\* the first arrow alone, for inputs of boundary lengths
+TSeed == /\ Ev.e = "h_seed" /\ FillFirst(SeedOf(Ev.input), B(Ev.block)) /\ Adv /\ UNCHANGED <<S, gseed, prog, lastReg, fpr, v2>>
 TFill0 == /\ Ev.e = "h_fill0" /\ FillFirst(S, B(Ev.block)) /\ Adv /\ UNCHANGED <<S, gseed, prog, lastReg, fpr, v2>>
 TFill == /\ Ev.e = "h_fill" /\ FillLink(B(Ev.prev), B(Ev.block)) /\ Adv /\ UNCHANGED <<S, gseed, prog, lastReg, fpr, v2>>
 \* the generator state handed to AesGenerator4R is the last scratchpad block
@@ -76,7 +78,7 @@ TFpFull == /\ Ev.e = "h_fpfull" /\ B(Ev.h) = fpr
            /\ Adv /\ UNCHANGED <<S, gseed, prog, lastReg, fpr, v2>>
 
 Init == l = 1 /\ log = ndJsonDeserialize(IOEnv.TRACE) /\ S = <<>> /\ gseed = <<>> /\ prog = <<>> /\ lastReg = <<>> /\ fpr = <<>> /\ v2 = FALSE
-Next == l <= Len(log) /\ (TBegin \/ TFill0 \/ TFill \/ TFillEnd \/ TProg \/ TIter \/ TReg \/ TFp \/ TFinal \/ TFpFull)
+Next == l <= Len(log) /\ (TBegin \/ TSeed \/ TFill0 \/ TFill \/ TFillEnd \/ TProg \/ TIter \/ TReg \/ TFp \/ TFinal \/ TFpFull)
 Spec == Init /\ [][Next]_vars
 Accepted == TLCGet("stats").diameter - 1 = Len(ndJsonDeserialize(IOEnv.TRACE))
 =============================================================================
